@@ -1103,6 +1103,14 @@ func (x *Exec) step(f *Frame, st *State, ins ssa.Instruction) bool {
 				break
 			}
 			if bt, isT := loaded.(*Term); isT && bt.Sort == SBytes {
+				// make([]byte, <constant>) is lowered to new [n]byte + slice: for the key-layout audit it is the same
+				// piecewise-filled buffer a make with a variable length gives
+				if al, isAlloc := in.X.(*ssa.Alloc); isAlloc && x.rawKeys && al.Comment == "makeslice" {
+					if at, isArr := al.Type().(*types.Pointer).Elem().Underlying().(*types.Array); isArr && (hi == nil || (hi.IsLit() && hi.Lit.Int64() == at.Len())) && lo == nil {
+						f.regs[in] = &BufVal{ID: x.freshName("buf"), Len: IntLit(at.Len())}
+						break
+					}
+				}
 				f.regs[in] = x.sliceTerm(f, st, bt, lo, hi, in)
 				break
 			}
